@@ -37,10 +37,14 @@ Section Peer.
   Hypothesis dec_enc : forall iv p, al p -> decP iv (fst (enc iv p)) = p /\ decI iv (fst (enc iv p)) = snd (enc iv p).
   Hypothesis enc_len : forall iv p, al p -> length (fst (enc iv p)) = length p.
   Hypothesis enc_al : forall ts ms, al (encode ts ms) /\ (32 <= length (encode ts ms))%nat.
-  Hypothesis decodeP_enc : forall ts ms, decodeP (encode ts ms) = ms.
-  Hypothesis V_whole : forall ts ms, ms <> [] -> V (encode ts ms) = Some (Some ms).
-  Hypothesis V_prefix : forall ts ms n, (n < length (encode ts ms))%nat -> (n mod 32 = 0)%nat ->
+  (* okm ms: the list can be encoded and decoded back (for the RSCP instance: well-formed messages that fit one frame) *)
+  Variable okm : list msg -> Prop.
+  Hypothesis decodeP_enc : forall ts ms, okm ms -> decodeP (encode ts ms) = ms.
+  Hypothesis V_whole : forall ts ms, okm ms -> ms <> [] -> V (encode ts ms) = Some (Some ms).
+  Hypothesis V_prefix : forall ts ms n, okm ms -> (n < length (encode ts ms))%nat -> (n mod 32 = 0)%nat ->
                                         V (firstn n (encode ts ms)) = Some None.
+  Hypothesis reply_okm : forall ms, okm (reply_of ms).
+  Hypothesis auth_okm : okm auth_req.
   Hypothesis gp_bad : length gp = 32%nat /\ V gp = None /\ V [] = Some None.
   Hypothesis reply_nonempty : forall ms, reply_of ms <> [].
   Hypothesis auth_grants : auth_ok (reply_of auth_req) = true.
@@ -119,13 +123,13 @@ Section Peer.
     symmetry. apply firstn_all2. rewrite HL. apply le_n.
   Qed.
 
-  Lemma reply_one iv ts ms : ms <> [] -> one_reply msg decP V iv (fst (enc iv (encode ts ms))).
+  Lemma reply_one iv ts ms : okm ms -> ms <> [] -> one_reply msg decP V iv (fst (enc iv (encode ts ms))).
   Proof.
-    intro Hms. destruct (enc_al ts ms) as [Ha Hl]. destruct (dec_enc iv (encode ts ms) Ha) as [Hp _].
+    intros Hok Hms. destruct (enc_al ts ms) as [Ha Hl]. destruct (dec_enc iv (encode ts ms) Ha) as [Hp _].
     unfold one_reply. split; [unfold ClientReasm.al; rewrite enc_len by exact Ha; exact Ha|]. split.
     - intros n Hn Hm. rewrite enc_len in Hn by exact Ha. rewrite firstn_decP by (rewrite ?enc_len by exact Ha; lia || exact Hm).
       rewrite Hp. apply V_prefix; assumption.
-    - rewrite Hp, V_whole by exact Hms. discriminate.
+    - rewrite Hp, V_whole by assumption. discriminate.
   Qed.
 
   Lemma garbage_one iv : one_reply msg decP V iv (fst (enc iv gp)).
@@ -141,7 +145,7 @@ Section Peer.
   Qed.
 
   Variable maxlen : nat.
-  Hypothesis enc_bound : forall ts ms, (length (encode ts ms) <= maxlen)%nat.
+  Hypothesis enc_bound : forall ts ms, okm ms -> (length (encode ts ms) <= maxlen)%nat.
   Hypothesis gp_bound : (32 <= maxlen)%nat.
 
   Notation world := (world msg pstate).
@@ -203,7 +207,7 @@ Section Peer.
               clock msg pstate (adj w) = clock msg pstate w /\ next msg pstate (adj w) = next msg pstate w.
 
   Lemma exchange (adj : world -> world) fuel s w ms j s' w' r : level_only adj ->
-    Sync s w -> cur msg pstate w = Some j -> valid_req ms = true -> (maxlen < fuel)%nat ->
+    Sync s w -> cur msg pstate w = Some j -> valid_req ms = true -> okm ms -> (maxlen < fuel)%nat ->
     (let '(s1, w1, r1) := send s w ms in
      match r1 with Err _ x => (s1, adj w1, Err _ x) | Ok _ _ => receive fuel s1 (adj w1) end) = (s', w', r) ->
     Sync s' w' /\ (authed s' = true -> authed s = true) /\
@@ -211,7 +215,7 @@ Section Peer.
     match r with Ok _ x => x = reply_of ms /\ cur msg pstate w' = Some j | Err _ _ => cur msg pstate w' = None end /\
     (healthy1 (est msg pstate w) -> r = Ok _ (reply_of ms) /\ script (est msg pstate w') = tl (script (est msg pstate w))).
   Proof.
-    intros Hadj HS Hc Hv Hf. unfold Sync in HS. rewrite Hc in HS. destruct HS as (Hin & Hcl & He & Hd).
+    intros Hadj HS Hc Hv Hok Hf. unfold Sync in HS. rewrite Hc in HS. destruct HS as (Hin & Hcl & He & Hd).
     destruct to_pos as (_ & _ & Hr).
     destruct (send_peer s w ms j Hc Hv) as (w1_ & ct & iv' & Ee & Es & Hc1_ & He1_ & Hk1_ & Hn1_). rewrite Es.
     set (w1 := adj w1_). destruct (Hadj w1_) as (K1 & K2 & K3 & K4). fold w1 in K1, K2, K3, K4.
@@ -234,7 +238,7 @@ Section Peer.
     set (rep := reply_of ms).
     set (p := est msg pstate w) in *.
     assert (Hp' : est msg pstate w1 = fst (fst (p_write p ct))) by exact He1.
-    unfold p_write in Hp'. rewrite HdP, HdI, decodeP_enc in Hp'. fold rep in Hp'.
+    unfold p_write in Hp'. rewrite HdP, HdI, decodeP_enc in Hp' by exact Hok. fold rep in Hp'.
     assert (Hdl : (clock msg pstate w2 <= clock msg pstate w1 + recv_to)%Z) by lia.
     destruct (script p) as [|[| | |tail] sc] eqn:Esc.
     - (* the peer answers *)
@@ -242,17 +246,17 @@ Section Peer.
       assert (Hc_c : c = fst (enc (p_enc p) (encode pts rep))) by (rewrite Er; reflexivity).
       destruct (enc_al pts rep) as [Harep Hlrep].
       assert (Hlen_c : length c = length (encode pts rep)) by (rewrite Hc_c; apply enc_len; exact Harep).
-      assert (Hone : one_reply msg decP V (p_enc p) c) by (rewrite Hc_c; apply reply_one; apply reply_nonempty).
+      assert (Hone : one_reply msg decP V (p_enc p) c) by (rewrite Hc_c; apply reply_one; [apply reply_okm|apply reply_nonempty]).
       assert (Hq : inflight (est msg pstate w2) = [c] ++ []) by (rewrite He2, Hp'; cbn [inflight]; rewrite Hin; reflexivity).
       pose proof (loop_inv maxlen fuel [c] [] [] s1 (p_enc p) c [] [] w2 (clock msg pstate w1 + recv_to)%Z j
-                    ltac:(cbn [concat]; rewrite app_nil_r, Hlen_c; apply enc_bound) Hf ltac:(cbn [concat app]; rewrite app_nil_r; reflexivity)
+                    ltac:(cbn [concat]; rewrite app_nil_r, Hlen_c; apply enc_bound, reply_okm) Hf ltac:(cbn [concat app]; rewrite app_nil_r; reflexivity)
                     ltac:(constructor; [intro X; rewrite X in Hlen_c; cbn in Hlen_c; lia|constructor]) ltac:(discriminate) Hone Hc2 Hq Hdl
                     (est msg pstate w2) (Rel_refl _) eq_refl ltac:(cbn; rewrite decP_nil; reflexivity) ltac:(cbn; rewrite decI_nil; exact Hd)
                     ltac:(cbn [length]; lia)) as L.
       destruct (recv_loop fuel (clock msg pstate w1 + recv_to)%Z [] [] s1 w2) as [[s2 w3] r2].
       destruct L as [Lf (Lrel & Lpost)].
       unfold ClientReasm.final in Lf.
-      assert (HV : V (decP (p_enc p) c) = Some (Some rep)) by (rewrite Hc_c, (proj1 (dec_enc (p_enc p) (encode pts rep) Harep)); apply V_whole; apply reply_nonempty).
+      assert (HV : V (decP (p_enc p) c) = Some (Some rep)) by (rewrite Hc_c, (proj1 (dec_enc (p_enc p) (encode pts rep) Harep)); apply V_whole; [apply reply_okm|apply reply_nonempty]).
       rewrite HV in Lf; injection Lf as -> ->.
       intros [= <- <- <-].
       destruct Lpost as [Lc Lq]; destruct Lrel as (R1 & R2 & R3 & R4 & R5).
@@ -267,17 +271,17 @@ Section Peer.
       assert (Hc_c : c = fst (enc (p_enc p) (encode pts rep))) by (rewrite Er; reflexivity).
       destruct (enc_al pts rep) as [Harep Hlrep].
       assert (Hlen_c : length c = length (encode pts rep)) by (rewrite Hc_c; apply enc_len; exact Harep).
-      assert (Hone : one_reply msg decP V (p_enc p) c) by (rewrite Hc_c; apply reply_one; apply reply_nonempty).
+      assert (Hone : one_reply msg decP V (p_enc p) c) by (rewrite Hc_c; apply reply_one; [apply reply_okm|apply reply_nonempty]).
       assert (Hq : inflight (est msg pstate w2) = [c] ++ []) by (rewrite He2, Hp'; cbn [inflight]; rewrite Hin; reflexivity).
       pose proof (loop_inv maxlen fuel [c] [] [] s1 (p_enc p) c [] [] w2 (clock msg pstate w1 + recv_to)%Z j
-                    ltac:(cbn [concat]; rewrite app_nil_r, Hlen_c; apply enc_bound) Hf ltac:(cbn [concat app]; rewrite app_nil_r; reflexivity)
+                    ltac:(cbn [concat]; rewrite app_nil_r, Hlen_c; apply enc_bound, reply_okm) Hf ltac:(cbn [concat app]; rewrite app_nil_r; reflexivity)
                     ltac:(constructor; [intro X; rewrite X in Hlen_c; cbn in Hlen_c; lia|constructor]) ltac:(discriminate) Hone Hc2 Hq Hdl
                     (est msg pstate w2) (Rel_refl _) eq_refl ltac:(cbn; rewrite decP_nil; reflexivity) ltac:(cbn; rewrite decI_nil; exact Hd)
                     ltac:(cbn [length]; lia)) as L.
       destruct (recv_loop fuel (clock msg pstate w1 + recv_to)%Z [] [] s1 w2) as [[s2 w3] r2].
       destruct L as [Lf (Lrel & Lpost)].
       unfold ClientReasm.final in Lf.
-      assert (HV : V (decP (p_enc p) c) = Some (Some rep)) by (rewrite Hc_c, (proj1 (dec_enc (p_enc p) (encode pts rep) Harep)); apply V_whole; apply reply_nonempty).
+      assert (HV : V (decP (p_enc p) c) = Some (Some rep)) by (rewrite Hc_c, (proj1 (dec_enc (p_enc p) (encode pts rep) Harep)); apply V_whole; [apply reply_okm|apply reply_nonempty]).
       rewrite HV in Lf; injection Lf as -> ->.
       intros [= <- <- <-].
       destruct Lpost as [Lc Lq]; destruct Lrel as (R1 & R2 & R3 & R4 & R5).
@@ -361,12 +365,12 @@ Section Peer.
 
   (* C08 (pairing, at most once, in order) for one call *)
   Theorem call_spec fuel s w ms s' w' r :
-    Sync s w -> (maxlen < fuel)%nat -> send_multiple fuel s w ms = (s', w', r) ->
+    Sync s w -> (maxlen < fuel)%nat -> (valid_req ms = true -> okm ms) -> send_multiple fuel s w ms = (s', w', r) ->
     Sync s' w' /\
     (exists l, plog (est msg pstate w') = plog (est msg pstate w) ++ l /\ one_of l ms) /\
     (forall x, r = Ok _ x -> x = reply_of ms /\ exists l, plog (est msg pstate w') = plog (est msg pstate w) ++ l ++ [ms]).
   Proof.
-    intros HS Hf. unfold Client.send_multiple.
+    intros HS Hf Hokm. unfold Client.send_multiple.
     (* step 1: connection *)
     assert (H0 : exists s0 w0 j, (match cur msg pstate w with None => connect s w | Some _ => (s, w, Ok _ tt) end) = (s0, w0, Ok _ tt) /\
                  Sync s0 w0 /\ cur msg pstate w0 = Some j /\ plog (est msg pstate w0) = plog (est msg pstate w) /\
@@ -379,7 +383,7 @@ Section Peer.
     (* step 2: authentication when needed *)
     destruct (authed s0) eqn:Ea.
     - destruct (valid_req ms) eqn:Hv.
-      + intro H. destruct (exchange (fun x => x) fuel s0 w0 ms j s' w' r id_level_only HS0 Hc0 Hv Hf) as (A & B & C & D & _).
+      + intro H. destruct (exchange (fun x => x) fuel s0 w0 ms j s' w' r id_level_only HS0 Hc0 Hv (Hokm eq_refl) Hf) as (A & B & C & D & _).
         { destruct (send s0 w0 ms) as [[sa wa] [u|x]]; exact H. }
         split; [exact A|]. split.
         * exists [ms]. rewrite C, Hl0. split; [reflexivity|]. right. right. left. reflexivity.
@@ -399,7 +403,7 @@ Section Peer.
       destruct (send s0 w0a auth_req) as [[s1 w1] r1] eqn:Es1.
       fold (adj w1).
       destruct (match r1 with Err _ x => (s1, adj w1, Err _ x) | Ok _ _ => receive fuel s1 (adj w1) end) as [[s2 w2] r2] eqn:Ex.
-      assert (Hex := exchange adj fuel s0 w0a auth_req j s2 w2 r2 Hadj HS0a Kc auth_valid Hf).
+      assert (Hex := exchange adj fuel s0 w0a auth_req j s2 w2 r2 Hadj HS0a Kc auth_valid auth_okm Hf).
       rewrite Es1 in Hex. specialize (Hex Ex). destruct Hex as (A & B & C & D & _). rewrite Ke in C.
       destruct r1 as [u|x1].
       + rewrite Ex. destruct r2 as [x2|x2].
@@ -412,7 +416,7 @@ Section Peer.
           destruct K3 as [K3c K3e].
           assert (HS3 : Sync s3 w3). { unfold Sync in *. rewrite K3c, K3e. rewrite Hc2 in A. exact A. }
           destruct (valid_req ms) eqn:Hv.
-          -- intro H. destruct (exchange (fun x => x) fuel s3 w3 ms j s' w' r id_level_only HS3 K3c Hv Hf) as (A' & B' & C' & D' & _).
+          -- intro H. destruct (exchange (fun x => x) fuel s3 w3 ms j s' w' r id_level_only HS3 K3c Hv (Hokm eq_refl) Hf) as (A' & B' & C' & D' & _).
              { destruct (send s3 w3 ms) as [[sa wa] [u'|x']]; exact H. }
              rewrite K3e in C'.
              split; [exact A'|]. split.
@@ -432,12 +436,12 @@ Section Peer.
   (* C08 (recovery): from a closed state, if the peer is healthy for the next two exchanges, the call reconnects,
      re-authenticates and returns the reply to this very request *)
   Theorem recovery fuel s w ms s' w' r :
-    Sync s w -> cur msg pstate w = None -> (maxlen < fuel)%nat -> valid_req ms = true ->
+    Sync s w -> cur msg pstate w = None -> (maxlen < fuel)%nat -> valid_req ms = true -> okm ms ->
     (match script (est msg pstate w) with [] => True | [Answer] => True | Answer :: Answer :: _ => True | _ => False end) ->
     send_multiple fuel s w ms = (s', w', r) ->
     r = Ok _ (reply_of ms) /\ plog (est msg pstate w') = plog (est msg pstate w) ++ [auth_req; ms] /\ Sync s' w'.
   Proof.
-    intros HS Hc Hf Hv Hh. unfold Client.send_multiple. rewrite Hc.
+    intros HS Hc Hf Hv Hokm Hh. unfold Client.send_multiple. rewrite Hc.
     assert (Ha : authed s = false) by (unfold Sync in HS; rewrite Hc in HS; exact HS).
     destruct (connect_peer s w Hc Ha) as (s0 & w0 & j & E0 & HS0 & Hc0 & Ha0 & Hl0 & Hsc0). rewrite E0, Ha0.
     unfold Client.authenticate.
@@ -452,7 +456,7 @@ Section Peer.
     destruct (send s0 w0a auth_req) as [[s1 w1] r1] eqn:Es1.
     fold (adj w1).
     destruct (match r1 with Err _ x => (s1, adj w1, Err _ x) | Ok _ _ => receive fuel s1 (adj w1) end) as [[s2 w2] r2] eqn:Ex.
-    assert (Hex := exchange adj fuel s0 w0a auth_req j s2 w2 r2 Hadj HS0a Kc auth_valid Hf).
+    assert (Hex := exchange adj fuel s0 w0a auth_req j s2 w2 r2 Hadj HS0a Kc auth_valid auth_okm Hf).
     rewrite Es1 in Hex. specialize (Hex Ex). destruct Hex as (A & B & C & D & Hhealthy). rewrite Ke in C.
     assert (Hh0 : healthy1 (est msg pstate w0a)).
     { unfold healthy1. rewrite Ke, Hsc0. destruct (script (est msg pstate w)) as [|[| | |] [|[| | |] ?]]; try contradiction; exact I. }
@@ -468,7 +472,7 @@ Section Peer.
     destruct K3 as [K3c K3e].
     assert (HS3 : Sync s3 w3). { unfold Sync in *. rewrite K3c, K3e. rewrite Hc2 in A. exact A. }
     intro H.
-    destruct (exchange (fun x => x) fuel s3 w3 ms j s' w' r id_level_only HS3 K3c Hv Hf) as (A' & B' & C' & D' & Hhealthy').
+    destruct (exchange (fun x => x) fuel s3 w3 ms j s' w' r id_level_only HS3 K3c Hv Hokm Hf) as (A' & B' & C' & D' & Hhealthy').
     { destruct (send s3 w3 ms) as [[sa wa] [u'|x']]; exact H. }
     assert (Hh3 : healthy1 (est msg pstate w3)).
     { unfold healthy1. rewrite K3e, Hsc2. destruct (script (est msg pstate w)) as [|[| | |] [|[| | |] ?]]; try contradiction; exact I. }
